@@ -390,7 +390,7 @@ def main(tier: str) -> int:
         "stateless_depth": depth,
         "distinct_stateless_traces": len(sigs),
         "versions": versions,
-        "rule": f"ES-BFS over (consecutive failures capped at {MAX_TOLERATED + 2}, feed ordinal mod period {PERIOD_SMALL}) x keep-alive outcomes; every transition is one real _watchdog_feed() "
+        "rule": f"ES-BFS over (consecutive failures capped at {MAX_TOLERATED + 2}, feed ordinal mod period {PERIOD_SMALL}) x keep-alive outcomes and the move 'connect() again on the same application object'; every transition is one real _watchdog_feed() (or connect()) "
                 "against the simulated NCP; then every outcome sequence of the stated depth without merging, each step compared with the merged graph; then the shipped period along 185 feeds "
                 "with a failure at every single position and a run of 5 failures across the boundary",
         "samples": samples[:3] + [{"stateless_example": ["ok", "silent-counters", "stopped", "silent-buffers", "ok"]}],
@@ -398,6 +398,7 @@ def main(tier: str) -> int:
     rep.assumptions = [
         "tolerated maximum and command timeout are read from bellows as tunables; the clear period is configured through the module constant (3 for the closed graph, the shipped value for the long runs)",
         "the feed ordinal counts every feed, failed ones included (one feed per watchdog period)",
+        "connect() on the same application object between two feeds is not a successful feed: the run of failures continues across it; whether the phase of the periodic read-and-clear restarts with the new connection is left open (both accepted)",
         "ControllerApplication is constructed with zigpy.util.Requests back-filled (mc/env/compat.py)",
     ]
     return rep.finish()
